@@ -1553,6 +1553,7 @@ func (ex *Exec) chanRecv(st *State, x *ssa.UnOp, ch *Val) []*State {
 	st.assume(Ge(Select(ln, ch.T), IntLit(0, SInt)))
 	ex.note("A-chan: a blocking receive is assumed to complete (no deadlock/termination claim)")
 	ex.waitOn(st, ch.T)
+	ex.countSlotRecv(st, ch.T)
 	if x.CommaOk {
 		fr.vals[x] = &Val{K: VTuple, Fs: []*Val{v, scalar(Fresh("recvok", SBool), types.Typ[types.Bool])}}
 	} else {
@@ -1591,6 +1592,7 @@ func (ex *Exec) selectOp(st *State, x *ssa.Select) []*State {
 			// receive: ready (for ghost-tracked channels: non-empty)
 			s.assume(App("chanReady", SBool, ch.T, cur))
 			s.assume(Implies(App("isSlot", SBool, ch.T), Gt(cur, IntLit(0, SInt))))
+			ex.countSlotRecv(s, ch.T)
 			if !(ch.T.Op == "app" && ch.T.Name == "doneChan") {
 				// (a context's Done channel is only ever closed: receiving does not change any occupancy)
 				ex.set(s, "Chlen", Store(ln, ch.T, Ite(Gt(cur, IntLit(0, SInt)), Sub(cur, IntLit(1, SInt)), cur)))
@@ -1633,6 +1635,13 @@ func (ex *Exec) selectHook(s *State, x *ssa.Select, i int) {
 	ex.waitOn(s, ch)
 }
 
+// countSlotRecv: the ghost slotRecvs counts receives from channels made by the program (signals consumed).
+func (ex *Exec) countSlotRecv(s *State, ch *Term) {
+	n := s.get(ghostSlotRecvs, SInt)
+	ex.set(s, ghostSlotRecvs, Add(n, Ite(App("isSlot", SBool, ch), IntLit(1, SInt), IntLit(0, SInt))))
+}
+
+const ghostSlotRecvs = "G|ghost.slotRecvs|"
 const ghostClock = "G|ghost.clock|"
 const ghostWaits = "G|ghost.waits|"
 
